@@ -1,8 +1,9 @@
 """C08 — Line endings: one consistent terminator, and formatting commutes with it.
 Theorems: coq/Properties/Properties_C08.v (output side, model B): every line break the writer emits is the configured
-sequence; the symbol stream does not depend on the setting.  The input side (terminator census, CR/CRLF/LF parsing in
-tokenize.cpp) and the middle passes are NOT modelled: they are covered by the end-to-end oracle below (validated
-hypothesis, not a theorem).
+sequence; the symbol stream does not depend on the setting.  Input side: Model/NlAuto.v (terminator census + the decision of
+newlines=auto; theorems: most frequent terminator, majority of any mixed text, conversion), tied on every run to the
+dumped census / selected terminator.  CR/CRLF/LF handling inside the tokenizer's scanners and the middle passes are
+NOT modelled: they are covered by the end-to-end oracle below (validated hypothesis, not a theorem).
 Tie: Render correspondence on every run + oracles on real runs: format(convert(x)) == format(x) for LF/CRLF/CR/mixed
 inputs under each fixed newlines setting; crlf output == lf output with terminators replaced; newlines=auto picks the
 most frequent input terminator; no CR/LF byte outside a complete terminator in non-literal, non-comment output."""
@@ -14,7 +15,9 @@ from .. import common
 from . import render_common as rc
 
 LEVEL = "proof"
-ASSUME = ["Coq kernel; extraction; driver glue; hooks", "input-side terminator handling and the middle passes: validated end-to-end, not proved",
+ASSUME = ["Coq kernel; extraction; driver glue; hooks", "input-side terminator handling of the scanners and the middle passes: validated end-to-end, not proved",
+          "Model/NlAuto.v: the census is compared with the tokenizer's only on inputs whose terminators the tokenizer all sees as line breaks of its own (no backslash-newline, "
+          "disabled region, multi-line literal or attribute); the decision is compared on the dumped census of every run",
           "comment writers are oracle segments"]
 NLS = {"lf": b"\n", "crlf": b"\r\n", "cr": b"\r"}
 
@@ -90,7 +93,65 @@ def comment_cfg(r):
     return "\n".join(opts) + "\n"
 
 
+NLAUTO_STATS = {"decision_compared": 0, "census_compared": 0, "auto_decisions": 0, "ties_in_census": 0}
+NLAUTO_DIFF = []          # disagreements Model/NlAuto.v <-> tokenize() that are no failure of the property itself (tie order)
+NLNAME = {"a": "lf", "d,a": "crlf", "d": "cr"}
+
+
+def setting_of(case):
+    st = getattr(case, "setting", None)
+    if st is None:
+        text = case.cfg_text if case.cfg_text is not None else open(case.cfg_path, errors="replace").read()
+        m = re.findall(r"(?mi)^\s*newlines\s*=?\s*(\w+)", text)
+        st = m[-1].lower() if m else "auto"
+    return st if st in ("lf", "crlf", "cr", "auto") else None
+
+
+def transparent(case):
+    """every terminator of the input is a line break the tokenizer counts itself: generated programs and comment-style units
+    without backslash-newline (directive continuations, continued // comments) and without disabled regions"""
+    if not (case.label.startswith("gen:") or case.label.startswith("cmtstyle:")):
+        return False
+    d = case.data
+    return not re.search(rb"\\[ \t]*[\r\n]", d) and b"INDENT-O" not in d and len(d) < 30000
+
+
+def ask_nlauto(R, m):
+    """worker-thread question to the extracted Model/NlAuto.v: decision on the dumped census, census of the input bytes"""
+    st = setting_of(R.case)
+    if R.hdr is None or st is None or "le" not in R.hdr:
+        return
+    le = R.hdr["le"].split(",")
+    tr = transparent(R.case)
+    R.nlauto = (st, tr, m.ask("nlauto %s %s %s %s %s" % (st, le[0], le[1], le[2], R.case.data.hex() if tr and R.case.data else "-")).split())
+
+
+def nlauto_oracle(R, findings):
+    na = getattr(R, "nlauto", None)
+    if na is None:
+        return
+    st, tr, (sel, census, sel2) = na
+    real = NLNAME.get(R.hdr.get("nl", "a"))
+    le = [int(x) for x in R.hdr["le"].split(",")]
+    NLAUTO_STATS["decision_compared"] += 1
+    NLAUTO_STATS["census_compared"] += 1 if tr else 0
+    NLAUTO_STATS["auto_decisions"] += 1 if st == "auto" else 0
+    NLAUTO_STATS["ties_in_census"] += 1 if st == "auto" and sorted(le)[-1] == sorted(le)[-2] else 0
+    if sel != real:
+        cnt = dict(zip(("lf", "crlf", "cr"), le))
+        if st != "auto":
+            findings.append(("nlauto|fixed|%s" % st, "newlines=%s but the terminator selected is %s" % (st, real)))
+        elif real is None or cnt[real] < max(le):
+            findings.append(("nlauto|minority|%s" % real, "newlines=auto selects %s although the census (lf,crlf,cr)=%s has a more frequent terminator" % (real, le)))
+        else:
+            NLAUTO_DIFF.append("%s: census %s: tokenize() selects %s, Model/NlAuto.v select_le %s" % (R.case.label, le, real, sel))
+    if tr and census != R.hdr["le"]:
+        findings.append(("nlauto|census", "terminator census of the tokenizer (lf,crlf,cr)=%s differs from the input's %s (Model/NlAuto.v census_of) on an input without "
+                         "backslash-newline, disabled region or multi-line literal" % (R.hdr["le"], census)))
+
+
 def stray_oracle(R, findings):
+    nlauto_oracle(R, findings)
     att = rc.attributed(R)
     nl = [int(x, 16) for x in R.hdr.get("nl", "a").split(",")]
     i = 0
@@ -113,8 +174,9 @@ def run(rep, build, tier, seed):
         rep.unproved("build failed", "\n".join(build["errors"])[-3000:])
         return rep.finish(common.proof_status("C08", build))
     nc, ng = (14, 10) if tier == "quick" else (400, 300)
-    base_cases = rc.corpus_cases(r, nc * 2) + rc.generated_cases(r, ng, lambda rr, i: ("indent_columns=4\nindent_with_tabs=0\n", "g"),
-                                                                dict(indent="random", blank_max=2, comments=True))
+    # generated programs first: the number of groups is capped below, and the corpus slice must not crowd them out
+    base_cases = rc.generated_cases(r, ng, lambda rr, i: ("indent_columns=4\nindent_with_tabs=0\n", "g"),
+                                    dict(indent="random", blank_max=2, comments=True)) + rc.corpus_cases(r, nc * 2)
     special = b"/* multi\n   line\n comment */\n#define M(a) \\\n  do { a; } \\\n  while (0)\nint f(void)\n{\n\tchar *s = \"x\"; // c1 \\\n continued\n\treturn 0;\n}\n/* *INDENT-OFF* */\n  int   keep ;\n/* *INDENT-ON* */\nint y;\n"
     base_cases.append(rc.Case("special", "C", "indent_columns=4\n", special))
     # continued directives whose text is kept as one body chunk (#pragma, #warning, unknown directives; every #define with
@@ -133,6 +195,8 @@ def run(rep, build, tier, seed):
             bc.data.decode("ascii")
         except UnicodeDecodeError:
             continue
+        if tier == "quick" and len(bc.data) > 24000:
+            continue          # the extracted Render model needs about a minute for a 50 kB file: such files are left to the thorough tier
         if b"\x00" in bc.data:
             continue          # UTF-16/32 without BOM decodes as ASCII with NULs: a byte-level terminator conversion would corrupt it
         lf = normalise(bc.data)
@@ -165,7 +229,12 @@ def run(rep, build, tier, seed):
     def oracle(R, findings):
         stray_oracle(R, findings)
         R.case.group["runs"][(R.case.setting, R.case.how)] = (R.rc, R.out, R.case)
-    corr = rc.explore(rep, cases, oracle, tier, "render")
+    del NLAUTO_DIFF[:]
+    for k in NLAUTO_STATS:
+        NLAUTO_STATS[k] = 0
+    corr = rc.explore(rep, cases, oracle, tier, "render", extra=ask_nlauto)
+    corr = list(corr or []) + NLAUTO_DIFF[:3]
+    rep.cov["input_distribution"] = {"nlauto_tie": dict(NLAUTO_STATS)}
     # cross-run comparisons
     for g in groups:
         runs = g["runs"]
@@ -202,10 +271,10 @@ def run(rep, build, tier, seed):
                 rep.finding("auto|%s|%s" % (g["label"], how), "newlines=auto on a pure %s input does not use %s for %s" % (how, how, g["label"]),
                             {"kind": "format", "label": au[2].label, "lang": au[2].lang, "cfg": au[2].cfg_text, "cfg_path": None, "input_b64": common.b64(au[2].data)})
     rep.sample({"groups": len(groups), "runs_per_group": 16, "example": groups[0]["label"] if groups else None})
-    return rc.finish(rep, build, "C08", corr, "correspondence Model/Render.v <-> output.cpp (emitted code points)",
+    return rc.finish(rep, build, "C08", corr, "correspondence Model/Render.v <-> output.cpp (emitted code points) / Model/NlAuto.v <-> tokenize() (census, selected terminator)",
                      "Theorems of Properties_C08.v re-checked by make; %d inputs x 4 terminator encodings x 4 settings formatted; render correspondence, "
-                     "stray-byte scan and cross-run equalities checked." % len(groups), ASSUME)
+                     "NlAuto census/decision tie, stray-byte scan and cross-run equalities checked." % len(groups), ASSUME)
 
 
 def replay(rp, build):
-    return rc.replay_format(rp, stray_oracle)
+    return rc.replay_format(rp, stray_oracle, extra=ask_nlauto)
